@@ -187,8 +187,8 @@ def gen_cases(ctx):
     yield {"kind": "read", "fmt": "tum", "variant": "p", "text": tf.BOM + "# c\r\n" + "1.5 2 3 4 0.1 0.2 0.3 0.9\r\n", "label": "ok", "corpus": "bom-crlf"}
     yield {"kind": "read", "fmt": "euroc", "variant": "p", "text": "#ts,x\n1403636580838555648,1,2,3,0.5,0.1,0.2,0.3,9,9\n", "label": "ok", "corpus": "euroc-ns"}
     yield {"kind": "read", "fmt": "kitti", "variant": "h", "text": " ".join(str(k) for k in range(1, 13)) + "\n", "label": "ok", "corpus": "kitti-slots"}
-    n_ok = 500 if not th else 4000
-    n_bad = 700 if not th else 6000
+    n_ok = 1500 if not th else 8000
+    n_bad = 2500 if not th else 12000
     for k in range(n_ok):
         fmt = r.choice(["tum", "kitti", "euroc"])
         nrows = r.choice([1, 1, 2, 3, 5, 8, 13]) if r.random() < 0.93 else r.randint(50, 300 if not th else 3000)
@@ -214,7 +214,7 @@ def gen_cases(ctx):
             text = tf.BOM + text
         yield {"kind": "read", "fmt": fmt, "variant": variant, "text": text, "label": d, "where": where}
     # files written by evo, read by the model and by the reference reader
-    for k in range(60 if not th else 400):
+    for k in range(150 if not th else 600):
         n = r.choice([1, 2, 5, 20]) if r.random() < 0.9 else r.randint(100, 400 if not th else 5000)
         if r.random() < 0.5:
             yield {"kind": "written", "fmt": "tum", "stamps": sorted(rand_value(r, "stamp") for _ in range(n)),
@@ -229,9 +229,9 @@ def gen_cases(ctx):
                 mats.append([R[i] + [rand_value(r, "p")] for i in range(3)])
             yield {"kind": "written", "fmt": "kitti", "mats": mats}
     # transforms
-    for k in range(150 if not th else 1500):
+    for k in range(500 if not th else 3000):
         yield gen_tfjson(r)
-    for k in range(200 if not th else 2000):
+    for k in range(600 if not th else 4000):
         yield gen_tfmat(r)
 
 
@@ -345,6 +345,13 @@ def call_reader(fmt, variant, text):
         return {"status": "FIE"}
     except Exception as e:  # noqa
         return {"status": "EXC:" + type(e).__name__, "msg": str(e)[:120]}
+    try:
+        return extract(fmt, obj)
+    except Exception as e:  # noqa  (a loaded object that cannot even be inspected)
+        return {"status": "EXC:" + type(e).__name__, "msg": "while reading the loaded object: " + str(e)[:120]}
+
+
+def extract(fmt, obj):
     if fmt == "kitti":
         rows, ok = [], True
         for p in obj.poses_se3:
